@@ -114,7 +114,7 @@ class Evaluator(object):
                non-positive real part (division, powers, tan/sec/cot/csc/coth/csch ...),
     ``big``  = {name: largest |Re argument|} for tanh / coth,
     ``regimes`` = neg entries as '<op>:neg' (and '<op>:mixed' when the real parts of the two
-               components have opposite signs or one is zero) plus '<op>:huge' / '<op>:tiny' (modulus beyond 1e+-150), 'tanh:over300', 'arcsinh:neg' (argument with a
+               components have opposite signs or one is zero) plus '<op>:huge' / '<op>:tiny' (modulus beyond 1e+-150), 'tanh:over300', 'log1p:huge', 'arctan:neg' / 'arctan:mixed' (real parts of the components of 1 -+ j z), 'arcsinh:neg' (argument with a
                negative real part), 'log1p:re<-0.5'  (used to classify findings only),
     ``kappa``= largest M/m of a quantity that is inverted or whose logarithm is taken."""
 
@@ -262,6 +262,14 @@ class Evaluator(object):
             self.regimes.add('arcsinh:neg')
         if name == 'log1p' and lo < -0.5:
             self.regimes.add('log1p:re<-0.5')
+        if name == 'log1p' and u.M > 1e70:
+            self.regimes.add('log1p:huge')
+        if name == 'arctan':
+            # the class forms log(1 - j z) - log(1 + j z); idempotent components 1 -+ i u_a, 1 +- i u_b
+            ia, ib = mp.im(u.a), mp.im(u.b)
+            for p, q in ((1 - ia, 1 + ib), (1 + ia, 1 - ib)):
+                if min(p, q) <= 0:
+                    self.regimes.add('arctan:mixed' if max(p, q) >= 0 else 'arctan:neg')
         if name in ('log', 'log2', 'log10', 'sqrt'):
             if self._note_log_arg(name, u):
                 raise IdemDomainError('%s of a quantity with real part <= 0' % name)
